@@ -347,8 +347,9 @@ def install(handler, g):
             nN, nOut = ("output", "output_1") if cfg.get("names") == "user_variable_called_output" else ("N", "output")
             msgs = []
             # (name, forward mean|x| of N / of its input, backward mean|g| of N / of its input, rtol)
-            variants = [("same", 1.0, 1.0, 1.0, 1.0, 2**-16), ("different", 1.0, 2.0, 1.0, 2.0, 2**-16), ("backward_within_the_callers_rtol", 1.0, 1.0, 1.0, 1.001, 0.25), ("forward_within_the_callers_rtol", 1.0, 1.001, 1.0, 1.0, 0.25), ("backward_outside_rtol", 1.0, 1.0, 1.0, 1.5, 0.25)] if helper == "prune_same_scale_tensors" else [("-", 1.0, 2.0, 1.0, 2.0, 2**-16)]
-            for vname, mN, mA, gN, gA, rtol_ in variants:
+            variants = [("same", 1.0, 1.0, 1.0, 1.0, 2**-16), ("different", 1.0, 2.0, 1.0, 2.0, 2**-16), ("backward_within_the_callers_rtol", 1.0, 1.0, 1.0, 1.001, 0.25), ("forward_within_the_callers_rtol", 1.0, 1.001, 1.0, 1.0, 0.25), ("backward_outside_rtol", 1.0, 1.0, 1.0, 1.5, 0.25), ("tiny_values_that_differ_by_a_factor_4", 1e-10, 4e-10, 1e-10, 4e-10, 2**-16), ("every_node_tiny_all_different", 1e-10, 4e-10, 1e-10, 4e-10, 2**-16, 1e-10)] if helper == "prune_same_scale_tensors" else [("-", 1.0, 2.0, 1.0, 2.0, 2**-16)]
+            for vname, mN, mA, gN, gA, rtol_, *rest in variants:
+                k_others = rest[0] if rest else 1.0
                 g = fx.Graph()
                 x = g.placeholder("x")
                 idx = g.placeholder("idx")
@@ -374,7 +375,7 @@ def install(handler, g):
                     n.meta["outputs_float_tensor"] = n.name != "idx" and n.op != "output"
                 node.meta["outputs_float_tensor"] = cfg.get("node_is_float", True)
                 if helper == "prune_same_scale_tensors":
-                    vals = {"x": 7.0, "earlier": mA, nN: mN, "consumer": 13.0, "side": 3.0}
+                    vals = {"x": 7.0 * k_others, "earlier": mA, nN: mN, "consumer": 13.0 * k_others, "side": 3.0 * k_others}
                     for n in g.nodes:
                         if n.name in vals:
                             m = ts.Metrics.__new__(ts.Metrics)
